@@ -213,6 +213,7 @@ pub fn fold_row<E: FieldElement>(row: &[E], x: E::BaseField, wn: E::BaseField, a
 /// geometry of one layer: `size` evaluations at offset * g^i, folded by `folding`
 #[derive(Clone, Copy)]
 pub struct LayerGeom<B: StarkField> {
+    #[allow(dead_code)]
     pub size: usize,
     pub folding: usize,
     pub rows: usize,
@@ -290,8 +291,4 @@ where
     E::BaseField: vf_repo::FA,
 {
     v.iter().map(vf_repo::to_el).collect()
-}
-
-pub fn base_to_u128<B: vf_repo::FA>(b: B) -> u128 {
-    b.to_u128()
 }
